@@ -234,6 +234,7 @@ def connectTCP(host, port, factory, timeout=30, bindAddress=None):
     W.connectors.append(c)
     c.index = len(W.connectors)
     c.transport = _PendingTransport(c)        # like Twisted's Client: exists (with its socket) while connecting
+    c.pending_sock = c.transport.sock         # kept: the harness asks whether this attempt carries the TCP-MD5 option
     try:
         factory.startedConnecting(c)
     except AttributeError:
